@@ -264,6 +264,11 @@ pub enum Op {
     EndUpgrade { path: String },
     AtomicReplace { path: String, cid: usize },
     // ---- environment
+    /// a real file under the worker's live directory is replaced atomically (write to a temporary name, rename)
+    LiveInstall { name: String, cid: usize },
+    /// `TimeZone::from_posix_tz(":<live dir>/<name>")` through the default reader, with a scheduling point
+    /// before every file-system request the call makes
+    LiveRead { name: String },
     SetEnv { key: String, val: String },
     UnsetEnv { key: String },
     ClockAdvance { ns: i128 },
@@ -315,6 +320,8 @@ impl Op {
             Op::BeginUpgrade { .. } => "begin_upgrade",
             Op::EndUpgrade { .. } => "end_upgrade",
             Op::AtomicReplace { .. } => "atomic_replace",
+            Op::LiveInstall { .. } => "liveinstall",
+            Op::LiveRead { .. } => "liveread",
             Op::SetEnv { .. } => "setenv",
             Op::UnsetEnv { .. } => "unsetenv",
             Op::ClockAdvance { .. } => "clock_advance",
@@ -357,6 +364,8 @@ impl Op {
             Op::BeginUpgrade { path, cid, cut } => format!("{n} path={} cid={cid} cut={cut}", esc(path.as_bytes())),
             Op::EndUpgrade { path } => format!("{n} path={}", esc(path.as_bytes())),
             Op::AtomicReplace { path, cid } => format!("{n} path={} cid={cid}", esc(path.as_bytes())),
+            Op::LiveInstall { name, cid } => format!("{n} name={} cid={cid}", esc(name.as_bytes())),
+            Op::LiveRead { name } => format!("{n} name={}", esc(name.as_bytes())),
             Op::SetEnv { key, val } => format!("{n} key={} val={}", esc(key.as_bytes()), esc(val.as_bytes())),
             Op::UnsetEnv { key } => format!("{n} key={}", esc(key.as_bytes())),
             Op::ClockAdvance { ns } => format!("{n} ns={ns}"),
@@ -427,6 +436,8 @@ impl Op {
             "begin_upgrade" => Op::BeginUpgrade { path: st("path")?, cid: us("cid")?, cut: us("cut")? },
             "end_upgrade" => Op::EndUpgrade { path: st("path")? },
             "atomic_replace" => Op::AtomicReplace { path: st("path")?, cid: us("cid")? },
+            "liveinstall" => Op::LiveInstall { name: st("name")?, cid: us("cid")? },
+            "liveread" => Op::LiveRead { name: st("name")? },
             "setenv" => Op::SetEnv { key: st("key")?, val: st("val")? },
             "unsetenv" => Op::UnsetEnv { key: st("key")? },
             "clock_advance" => Op::ClockAdvance { ns: i128v("ns")? },
